@@ -1275,16 +1275,19 @@ def _emit_block(
 
         if isinstance(node, ForRangeLoop):
             limit_expr = _emit_expr(node.count)
+            counter = f"__redu_it_{node.var_name}" if node.private_counter else node.var_name
             if node.hoist_count:
                 stop_name = f"__redu_stop_{node.var_name}"
                 lines.append(
-                    f"{indent}for (int {node.var_name} = 0, {stop_name} = {limit_expr}; "
-                    f"{node.var_name} < {stop_name}; ++{node.var_name}) {{"
+                    f"{indent}for (int {counter} = 0, {stop_name} = {limit_expr}; "
+                    f"{counter} < {stop_name}; ++{counter}) {{"
                 )
             else:
                 lines.append(
-                    f"{indent}for (int {node.var_name} = 0; {node.var_name} < {limit_expr}; ++{node.var_name}) {{"
+                    f"{indent}for (int {counter} = 0; {counter} < {limit_expr}; ++{counter}) {{"
                 )
+            if node.private_counter:
+                lines.append(f"{indent}  int {node.var_name} = {counter};")
             lines.extend(
                 _emit_block(
                     node.body,
